@@ -3,7 +3,10 @@
 package instrument
 
 import (
+	"context"
 	"errors"
+	"fmt"
+	"io"
 	"time"
 
 	tally "github.com/uber-go/tally/v4"
@@ -45,11 +48,19 @@ func VerifC10Call() {
 	for i := 0; i < n; i++ {
 		invoked := 0
 		var ret error
-		switch verifrt.Choose("outcome", 3) {
+		switch verifrt.Choose("outcome", 7) {
 		case 1:
 			ret = e1
 		case 2:
 			ret = e2
+		case 3: // well-known sentinel errors are errors like any other
+			ret = context.Canceled
+		case 4:
+			ret = fmt.Errorf("op: %w", context.Canceled)
+		case 5:
+			ret = context.DeadlineExceeded
+		case 6:
+			ret = io.EOF
 		}
 		got := call.Exec(func() error { invoked++; return ret })
 		verifrt.Assert("c10.call-runs-function-exactly-once", invoked == 1)
